@@ -29,6 +29,48 @@ func runR01_4(c *Ctx, r *R) {
 			continue // the _safe twins are dead code today; compared only if present
 		}
 		key := fnKey(f) + "/binary-search"
+		// the search loop may live in a helper of the table that the lookup calls with the tag (find_big(tag)
+		// returning a pointer to the entry, or nil): the shape is checked there, and the lookup must answer -1
+		// exactly where the helper answered "absent"
+		outer := f
+		if loopFree(f) {
+			for _, call := range callsIn(f, false) {
+				h := call.Common().StaticCallee()
+				cv, isCall := call.(*ssa.Call)
+				if h == nil || !isCall || h.Blocks == nil || h.Pkg != f.Pkg || loopFree(h) || len(cv.Call.Args) == 0 || cv.Call.Args[0] != ssa.Value(f.Params[0]) {
+					continue
+				}
+				passesTag := false
+				for _, a := range cv.Call.Args {
+					for _, p := range f.Params {
+						if p.Name() == "tag" && a == ssa.Value(p) {
+							passesTag = true
+						}
+					}
+				}
+				if !passesTag {
+					continue
+				}
+				// -1 exactly under "helper said absent"
+				mapped := false
+				for _, ret := range returnsOf(f) {
+					if len(ret.Results) == 1 && isConstInt(ret.Results[0], -1) {
+						for _, cd := range pathConds(ret.Block()) {
+							for _, rel := range relsOf(cd) {
+								if rel.Op == token.EQL && ((rel.X == ssa.Value(cv) && (isNilConst(rel.Y) || isConstInt(rel.Y, -1))) || (rel.Y == ssa.Value(cv) && (isNilConst(rel.X) || isConstInt(rel.X, -1)))) {
+									mapped = true
+								}
+							}
+						}
+					}
+				}
+				if mapped {
+					f = h
+				}
+				break
+			}
+		}
+		_ = outer
 		var problems []string
 		bad := func(format string, a ...any) { problems = append(problems, fmt.Sprintf(format, a...)) }
 		var tag *ssa.Parameter
@@ -188,7 +230,7 @@ func runR01_4(c *Ctx, r *R) {
 			if len(ret.Results) != 1 {
 				continue
 			}
-			if isConstInt(ret.Results[0], -1) {
+			if isConstInt(ret.Results[0], -1) || isNilConst(ret.Results[0]) {
 				hasMinus1 = true
 				continue
 			}
@@ -218,7 +260,7 @@ func runR01_4(c *Ctx, r *R) {
 			fc := e.newFnCtx(f)
 			inLoop := reachableFrom(header)
 			for _, ret := range returnsOf(f) {
-				if len(ret.Results) != 1 || !isConstInt(ret.Results[0], -1) || inLoop[ret.Block()] || ret.Block() == header {
+				if len(ret.Results) != 1 || !(isConstInt(ret.Results[0], -1) || isNilConst(ret.Results[0])) || inLoop[ret.Block()] || ret.Block() == header {
 					continue
 				}
 				budget := 300
